@@ -22,10 +22,10 @@ LEVEL_TEXT = ("The linear map is decided completely for each n by enumerating it
               "linearity/identities are explored on generated boxes against exact rational arithmetic. 'Proved for each n' in the "
               "statement is replaced here by exhaustive coefficient extraction plus random linearity tests - the PBT analogue.")
 LEVEL_NOTE = ("Trusted: Fraction arithmetic, the n! orderings definition of the Shapley value in vp/oracles.py. Float comparison "
-              "tolerance 64*n*2^n*eps*scale (the implementation sums n*2^(n-1) weighted terms). Basis n<=6 quick, n<=8 thorough.")
+              "tolerance 2*n*2^n*eps*scale (twice the classical worst-case bound for the n*2^(n-1) weighted terms). Basis n<=6 quick, n<=8 thorough.")
 TECHNIQUE = "property-based testing: exhaustive basis enumeration of a linear map + Hypothesis-generated boxes vs exact rational oracle"
 ASSUMPTIONS = [
-    "compute_exploitability is evaluated in float64; equality is judged within 64*n*2^n*eps*max|bound|",
+    "compute_exploitability is evaluated in float64; equality is judged within 2*n*2^n*eps*max|bound|",
     "the grand coalition is known (lower=upper) and v(empty)=0, as the statement requires",
 ]
 
@@ -123,8 +123,11 @@ def boxes(draw, max_n: int, min_n: int = 2):
 
 
 def _tol(n, lower, upper):
+    """float64 evaluation: n Shapley sums of 2^(n-1) terms whose absolute values sum to at most 2*scale (the weights of one
+    player sum to 1); the classical bound (m-1)*eps*sum|terms| gives 2^n*eps*scale per player, n*2^n*eps*scale in total.
+    Twice that worst case is used: sound, and still three orders of magnitude below single-precision effects."""
     scale = max([abs(x) for x in lower] + [abs(x) for x in upper] + [1.0])
-    return 64 * n * (1 << n) * EPS * scale
+    return 2 * n * (1 << n) * EPS * scale
 
 
 def _check_registry(case: dict) -> Result:
@@ -172,10 +175,36 @@ def registry_boxes(draw):
     return {"kind": "registry", "n": n, "lower": lo, "upper": [a + b for a, b in zip(lo, wd)]}
 
 
+def _check_big(case: dict) -> Result:
+    """n = 15, 16: beyond the sizes where every factorial weight is exactly representable in single precision; integer boxes
+    from a seed, exact rational oracle, the tight float64 tolerance."""
+    import random
+    from incomplete_cooperative.exploitability import compute_exploitability
+    res = Result()
+    n, seed = case["n"], case["seed"]
+    rng = random.Random(seed)
+    size = 1 << n
+    lo = [float(rng.randint(-1000, 1000)) for _ in range(size)]
+    wd = [float(rng.choice([0, 0, 1, 3, 8])) for _ in range(size)] if case["mode"] == "box" else [0.0] * size
+    lo[0] = wd[0] = 0.0
+    wd[size - 1] = 0.0
+    up = [a + b for a, b in zip(lo, wd)]
+    got = float(compute_exploitability(StandIn(n, lo, up)))
+    want = float(exploitability_exact(lo, up, n))
+    tol = _tol(n, lo, up)
+    if abs(got - want) > tol:
+        res.fail(f"!=weighted-gap :: n={n} ({case['mode']}): got {got!r}, exact {want!r}, difference {got - want:.3g} (tolerance {tol:.3g})")
+    res.nontrivial = True
+    res.label(f"big n={n}", case["mode"])
+    return res
+
+
 @guarded
 def check_case(case: dict) -> Result:
     if case["kind"] == "basis":
         return _check_basis(case)
+    if case["kind"] == "big":
+        return _check_big(case)
     if case["kind"] == "registry":
         return _check_registry(case)
     from incomplete_cooperative.exploitability import compute_exploitability
@@ -296,10 +325,12 @@ def plan(tier: str) -> list[dict]:
     if tier == "quick":
         return ([{"mode": "basis", "ns": [2, 3, 4, 5], "cost": 1}, {"mode": "basis", "ns": [6], "cost": 2}]
                 + [{"mode": "boxes", "max_n": 7, "examples": 400, "cost": 3} for _ in range(4)]
-                + [{"mode": "boxes", "max_n": 9, "min_n": 8, "examples": 20, "cost": 3}, {"mode": "registry", "examples": 150, "cost": 4}])
+                + [{"mode": "boxes", "max_n": 9, "min_n": 8, "examples": 20, "cost": 3}, {"mode": "registry", "examples": 150, "cost": 4},
+                   {"mode": "big", "cases": [{"kind": "big", "n": 15, "seed": 1, "mode": "box"}, {"kind": "big", "n": 15, "seed": 2, "mode": "degenerate"}], "cost": 4}])
     return ([{"mode": "basis", "ns": [2, 3, 4, 5, 6], "cost": 2}, {"mode": "basis", "ns": [7], "cost": 4}, {"mode": "basis", "ns": [8], "cost": 10}]
             + [{"mode": "boxes", "max_n": 7, "examples": 1500, "cost": 8} for _ in range(9)]
-            + [{"mode": "boxes", "max_n": 9, "min_n": 8, "examples": 150, "cost": 8} for _ in range(3)] + [{"mode": "registry", "examples": 4000, "cost": 8}])
+            + [{"mode": "boxes", "max_n": 9, "min_n": 8, "examples": 150, "cost": 8} for _ in range(3)] + [{"mode": "registry", "examples": 4000, "cost": 8}]
+            + [{"mode": "big", "cases": [{"kind": "big", "n": n_, "seed": s_, "mode": m_} for n_ in (15, 16) for s_ in (1, 2) for m_ in ("box", "degenerate")], "cost": 10}])
 
 
 def run_shard(spec: dict, ctx: Ctx) -> None:
@@ -311,5 +342,10 @@ def run_shard(spec: dict, ctx: Ctx) -> None:
         return
     if spec["mode"] == "registry":
         ctx.run_given(registry_boxes(), check_case, spec["examples"])
+        return
+    if spec["mode"] == "big":
+        for case in spec["cases"]:
+            case = dict(case, seed=case["seed"] + 1000 * ctx.base_seed)
+            ctx.judge_enum(case, check_case(case))
         return
     ctx.run_given(boxes(spec["max_n"], spec.get("min_n", 2)), check_case, spec["examples"], sample_of=_sample)
